@@ -207,6 +207,10 @@ def entries():
         lambda a, v: a(**{n: v for n in a.names}), "calculus")
     add("call(partial)", lambda r: [P(r, maxexp=2, names=gen.gen_names(r, 2, 3)), int(r.integers(-2, 3))],
         lambda a, v: a(**{a.names[0]: v}), "calculus")
+    # a high power that cancels, evaluated where the power itself overflows a double: the cancelled term is absent or a
+    # retained all-zero term, the value is the same either way (D58: inf * 0 = nan under retain_coefficients=True)
+    add("cancelled high power then call(large float)", lambda r: [int(r.integers(100, 200)), int(r.integers(-3, 4)), gen.choice(r, [1e10, -1e9, 2.5e12])],
+        lambda e, c, x: (lambda q: (1.0 * q ** e - q ** e + c + q)(x))(numpoly.variable()), "calculus")
     add("call(poly)", lambda r: [P(r, maxexp=2, nterms=2), P(r, shape=(), nterms=2, maxexp=1)],
         lambda a, b: a(**{a.names[0]: b}), "calculus")
     # alignment ----------------------------------------------------------------------------
